@@ -126,44 +126,6 @@ pub fn sd_jwt_parts(serialized_jwt: &str) -> (String, Vec<String>, Option<String
     (issuer_jwt, disclosures, key_binding_jwt)
 }
 
-/// Verification hook, compiled only with `--cfg sdjwt_verif`: what `build_validation` hands to the JWT
-/// library, as JSON (sets as sorted lists). It adds no behaviour of its own.
-#[cfg(sdjwt_verif)]
-pub mod verif_hooks {
-    use super::*;
-
-    fn sorted(set: &Option<std::collections::HashSet<String>>) -> Value {
-        match set {
-            Some(set) => {
-                let mut items: Vec<&String> = set.iter().collect();
-                items.sort();
-                serde_json::json!(items)
-            }
-            None => Value::Null,
-        }
-    }
-
-    pub fn build_validation(validation: &Validation) -> Value {
-        let valid = super::build_validation(validation);
-        let mut algorithms: Vec<String> = valid
-            .algorithms
-            .iter()
-            .map(|alg| format!("{:?}", alg))
-            .collect();
-        algorithms.sort();
-        serde_json::json!({
-            "leeway": valid.leeway,
-            "validate_exp": valid.validate_exp,
-            "validate_nbf": valid.validate_nbf,
-            "audiences": sorted(&valid.audiences),
-            "issuer": valid.issuer,
-            "subject": valid.subject,
-            "algorithms": algorithms,
-            "required_claims": sorted(&valid.required_claims),
-        })
-    }
-}
-
 #[cfg(test)]
 mod tests {
     use super::*;
@@ -272,5 +234,43 @@ mod tests {
         assert!(claims["nationalities"][0].is_object());
         assert!(claims["nationalities"][1].is_object());
         Ok(())
+    }
+}
+
+/// Verification hook, compiled only with `--cfg sdjwt_verif`: what `build_validation` hands to the JWT
+/// library, as JSON (sets as sorted lists). It adds no behaviour of its own.
+#[cfg(sdjwt_verif)]
+pub mod verif_hooks {
+    use super::*;
+
+    fn sorted(set: &Option<std::collections::HashSet<String>>) -> Value {
+        match set {
+            Some(set) => {
+                let mut items: Vec<&String> = set.iter().collect();
+                items.sort();
+                serde_json::json!(items)
+            }
+            None => Value::Null,
+        }
+    }
+
+    pub fn build_validation(validation: &Validation) -> Value {
+        let valid = super::build_validation(validation);
+        let mut algorithms: Vec<String> = valid
+            .algorithms
+            .iter()
+            .map(|alg| format!("{:?}", alg))
+            .collect();
+        algorithms.sort();
+        serde_json::json!({
+            "leeway": valid.leeway,
+            "validate_exp": valid.validate_exp,
+            "validate_nbf": valid.validate_nbf,
+            "audiences": sorted(&valid.audiences),
+            "issuer": valid.issuer,
+            "subject": valid.subject,
+            "algorithms": algorithms,
+            "required_claims": sorted(&valid.required_claims),
+        })
     }
 }
